@@ -99,7 +99,8 @@ fn plan_par(o: &Opts, prop: &str, quick: usize, thorough: usize, all_forms: bool
       let mut members =
          vec![MemberSpec { prog: prog.clone(), opts: PrintOpts::plain(Kind::Ascent), meta: meta(&base, "ser", Kind::Ascent, true) }];
       members.push(MemberSpec { prog: prog.clone(), opts: PrintOpts::plain(Kind::AscentPar), meta: meta(&base, "par", Kind::AscentPar, false) });
-      if all_forms {
+      // C20: every second program also with rule-level parallelism (other generated code around the per-iteration state)
+      if all_forms || (prop == "C20" && i % 2 == 0) {
          let mut opts = PrintOpts::plain(Kind::AscentPar);
          opts.attrs = vec!["inter_rule_parallelism".into()];
          let mut m = meta(&base, "par_inter_rule", Kind::AscentPar, false);
@@ -107,7 +108,7 @@ fn plan_par(o: &Opts, prop: &str, quick: usize, thorough: usize, all_forms: bool
          members.push(MemberSpec { prog: prog.clone(), opts, meta: m });
          let no_nullary = prog.rels.iter().all(|d| !d.cols.is_empty());
          let byods = prog.rels.iter().any(|d| d.ds.is_some());
-         if i % 3 == 0 && no_nullary && !byods {
+         if all_forms && i % 3 == 0 && no_nullary && !byods {
             members.push(MemberSpec {
                prog: prog.clone(),
                opts: PrintOpts::plain(Kind::AscentRunPar),
